@@ -5,7 +5,7 @@ from pbmon import boot  # noqa: F401
 from pbmon.oracle import sampling as O
 
 PROPERTY = "C17"
-NSHARDS = {"quick": 4, "thorough": 16}
+NSHARDS = {"quick": 8, "thorough": 16}
 CLAUSES = {
     "C17.sus.shape": 200, "C17.sus.floorceil": 200, "C17.sus.floorceil.strict": 20, "C17.sus.zero": 200,
     "C17.tiled.shape": 100, "C17.tiled.balance": 100,
@@ -245,7 +245,7 @@ def case_outcross(ctx, c):
 
 
 FAMILIES = {"sus": (case_sus, 12000, 400000), "tiled": (case_tiled, 4000, 100000), "tiled-addon": (case_tiled_addon, 1500, 40000),
-            "axis": (case_axis, 3000, 60000), "outcross": (case_outcross, 4000, 100000)}
+            "axis": (case_axis, 3000, 60000), "outcross": (case_outcross, 9000, 200000)}
 
 
 def run_shard(ctx):
